@@ -124,6 +124,10 @@ func scenariosFor(prop string) []scn {
 		both(flowParams{Sources: 1, Records: 2, Batch: 1, Dests: 1, AckMenu: []string{"nack", "ok"}, DLQMenu: []string{"nack", "ok"}, Stop: "stopwait", Retries: 1}, 2, 3)
 		both(flowParams{Sources: 1, Records: 2, Batch: 1, Dests: 1, AckMenu: onlyOK, Stop: "stopwait"}, 2, 3)
 		both(flowParams{Sources: 1, Records: 2, Batch: 1, Dests: 2, AckMenu: []string{"ok", "err"}, Stop: "force", Retries: 1}, 1, 2)
+		// a long scripted history: failure, a user start inside the back-off, a quiet period longer than the retry window,
+		// then failures in a row - the retry budget of the window must not have grown
+		both(flowParams{Sources: 1, Records: 5, Batch: 1, Dests: 1, AckScript: []string{"err", "ok", "err", "err", "err", "err"}, IdleBatches: []int{2}, Ctl: []string{"start"}, Retries: 1}, 1, 2)
+		both(flowParams{Sources: 1, Records: 6, Batch: 1, Dests: 1, AckScript: []string{"err", "ok", "err", "err", "err", "err", "err"}, IdleBatches: []int{2}, Ctl: []string{"start"}, Retries: 2}, 0, 1)
 	case "C11":
 		hist := [][]string{
 			{"stop", "start", "stopwait"},
